@@ -578,4 +578,302 @@ theorem discrete_frame (samples : List K) (idx : Option (List Int)) (x y : List 
 
 end discrete
 
+/-! ## `rounded(digits, index)` / `precision(digits, index)` -/
+
+section rounded
+variable {K : Type} [Field K] [LinearOrder K] [IsStrictOrderedRing K]
+
+/-- **in target** for `rounded(digits)` / `precision(digits)`: the result is on the grid `ℤ / 10^d`
+(`ℤ * 10^|d|` for negative digits); `p = 10^|d|` -/
+theorem roundDigits_on_grid (floor : K → K) (hf : IsFloor floor) (digits : Int) (p : K) (hp : p ≠ 0) (a : K) :
+    ∃ n : ℤ, roundDigits (rintHE floor) digits p a =
+      if digits = 0 then (n : K) else if 0 < digits then (n : K) / p else (n : K) * p := by
+  unfold roundDigits
+  split
+  · obtain ⟨n, hn, _⟩ := rintHE_nearest_integer floor hf a
+    exact ⟨n, hn⟩
+  · split
+    · obtain ⟨n, hn, _⟩ := rintHE_nearest_integer floor hf (a * p)
+      exact ⟨n, by rw [hn]⟩
+    · obtain ⟨n, hn, _⟩ := rintHE_nearest_integer floor hf (a / p)
+      exact ⟨n, by rw [hn]⟩
+
+/-- **idempotent**, hence numbers already on the grid are left alone -/
+theorem roundDigits_idem (floor : K → K) (hf : IsFloor floor) (digits : Int) (p : K) (hp : p ≠ 0) (a : K) :
+    roundDigits (rintHE floor) digits p (roundDigits (rintHE floor) digits p a) = roundDigits (rintHE floor) digits p a := by
+  unfold roundDigits
+  split
+  · exact rintHE_idem floor hf a
+  · split
+    · rw [div_mul_cancel₀ _ hp, rintHE_idem floor hf]
+    · rw [mul_div_assoc, div_self hp, mul_one, rintHE_idem floor hf]
+
+theorem rounded_idem (floor : K → K) (hf : IsFloor floor) (digits : Int) (p : K) (hp : p ≠ 0)
+    (idx : Option (List Int)) (x : List K) :
+    rounded (rintHE floor) digits p idx (rounded (rintHE floor) digits p idx x) = rounded (rintHE floor) digits p idx x := by
+  simp only [rounded, maskMap_length]
+  exact maskMap_idem _ (roundDigits_idem floor hf digits p hp) _ x
+
+theorem rounded_frame (rint : K → K) (digits : Int) (p : K) (idx : Option (List Int)) (x : List K) (k : Nat)
+    (hk : selMask x.length idx k = false) : (rounded rint digits p idx x)[k]? = x[k]? :=
+  maskMap_frame _ _ x k hk
+
+end rounded
+
+/-! ## `discrete`: samples are left alone -/
+
+section discrete2
+variable {K : Type} [Field K] [LinearOrder K] [IsStrictOrderedRing K]
+
+/-- **conforming input is left alone**: a value that IS a sample is mapped to itself -/
+theorem nearS_fix (s : List K) (hs : Ordered true s) (xi : K) (hmem : xi ∈ s) : nearS s xi = xi := by
+  obtain ⟨h1, h2⟩ := countLt_prefix s hs xi
+  obtain ⟨j, hj, hjx⟩ := List.getElem_of_mem hmem
+  have hcj : countLt s xi ≤ j := by
+    by_contra h
+    have := h1 j xi (by omega) (by rw [List.getElem?_eq_getElem hj, hjx])
+    exact lt_irrefl _ this
+  have hclt : countLt s xi < s.length := by omega
+  have hsc : s[countLt s xi]? = some xi := by
+    rw [List.getElem?_eq_getElem hclt]
+    congr 1
+    apply le_antisymm
+    · have := List.pairwise_iff_getElem.mp hs (countLt s xi) j hclt hj
+      rcases Nat.lt_or_ge (countLt s xi) j with h | h
+      · have := this h; simp at this; rw [hjx] at this; exact this
+      · have : countLt s xi = j := by omega
+        subst this; rw [hjx]
+    · exact h2 _ _ (le_refl _) (List.getElem?_eq_getElem hclt)
+  unfold nearS near
+  simp only
+  rw [if_neg (show ¬ countLt s xi = s.length by omega), hsc]
+  simp only [Option.getD_some, sub_self]
+  rcases Nat.eq_zero_or_pos (countLt s xi) with h0 | hpos
+  · rw [h0] at hsc ⊢
+    simp [hsc]
+  · have hlo : countLt s xi - 1 < s.length := by omega
+    have := h1 (countLt s xi - 1) _ (by omega) (List.getElem?_eq_getElem hlo)
+    rw [List.getElem?_eq_getElem hlo]
+    simp only [Option.getD_some]
+    rw [if_pos (by linarith)]
+
+theorem nearS_idem (s : List K) (hs : Ordered true s) (hne : s ≠ []) (xi : K) :
+    nearS s (nearS s xi) = nearS s xi := nearS_fix s hs _ (nearS_mem s hne xi)
+
+/-- **conforming input is left alone** for the decorator -/
+theorem discrete_fix_conform (samples : List K) (idx : Option (List Int)) (x : List K)
+    (hx : x ≠ []) (hs : samples ≠ [])
+    (hconf : ∀ k a, selMask x.length idx k = true → x[k]? = some a → a ∈ samples) :
+    discrete samples idx x = .ok x := by
+  unfold discrete
+  rw [if_neg (by simpa using hx), if_neg (by simpa using hs)]
+  congr 1
+  exact maskMap_fix_conform (fun a => a ∈ sortBy true samples) _
+    (fun a ha => nearS_fix _ (sortBy_ordered true samples) a ha) _ x
+    (fun k a hk ha => (sortBy_perm true samples).symm.subset (hconf k a hk ha))
+
+/-- **idempotent** -/
+theorem discrete_idem (samples : List K) (idx : Option (List Int)) (x y : List K)
+    (hy : discrete samples idx x = .ok y) : discrete samples idx y = .ok y := by
+  unfold discrete at hy ⊢
+  split at hy
+  · cases hy
+  · rename_i hx
+    split at hy
+    · cases hy
+    · rename_i hs
+      injection hy with hy; subst hy
+      have hne : sortBy true samples ≠ [] := by
+        intro h
+        have := (sortBy_perm true samples).length_eq
+        rw [h] at this
+        simp at hs this
+        exact hs (List.eq_nil_of_length_eq_zero this.symm)
+      rw [if_neg (by simpa [maskMap] using hx), if_neg hs, maskMap_length]
+      congr 1
+      exact maskMap_idem _ (nearS_idem _ (sortBy_ordered true samples) hne) _ x
+
+end discrete2
+
+/-! ## `unique(x, full)` / `impose_unique(full)` -/
+
+section uniq
+variable {R : Type} [BEq R] [LawfulBEq R]
+
+/-- **in target** for `unique` / `impose_unique`: given the shuffled list of unused values (`new`: no repeats,
+disjoint from `x` - the contract of `list(set(full) - set(x))` + `shuffle`), the result has pairwise-distinct
+entries, each an entry of `x` or one of the unused values -/
+theorem unique_distinct (full x new y : List R) (hy : unique full x new = .ok y) (hnd : new.Nodup)
+    (hnew : ∀ v ∈ new, v ∉ x) : y.Nodup ∧ ∀ b ∈ y, b ∈ x ∨ b ∈ new := by
+  unfold unique at hy
+  split at hy
+  · cases hy
+  · split at hy
+    · cases hy
+    · obtain ⟨h1, _, h3⟩ := uniqueGo_spec x [] new y hy hnd (fun v hv => ⟨by simp, hnew v hv⟩)
+      exact ⟨h1, h3⟩
+
+end uniq
+
+/-! ## `impose_bounds` with SEVERAL intervals, and `sorting` / `monotonic` with an index selection -/
+
+section multi
+variable {K : Type} [Field K] [LinearOrder K] [IsStrictOrderedRing K]
+
+theorem inAny_iff (ivs : List (K × K)) (v : K) : inAny ivs v = true ↔ ∃ iv ∈ ivs, iv.1 ≤ v ∧ v ≤ iv.2 := by
+  simp [inAny, List.any_eq_true]
+
+/-- **in target**, any number of intervals: whatever `impose_bounds(clip=True, nearest=True)` does to an entry, the
+result lies inside one of the given intervals (each with `lo ≤ hi`) -/
+theorem boundedAt_in_target (ivs : List (K × K)) (hwf : ∀ iv ∈ ivs, iv.1 ≤ iv.2) (hne : ivs ≠ []) (a : K) :
+    inAny ivs (boundedAt ivs a) = true := by
+  unfold boundedAt
+  split
+  · assumption
+  · rename_i hout
+    have hout' : ∀ iv ∈ ivs, ¬ (iv.1 ≤ a ∧ a ≤ iv.2) := by
+      intro iv hiv h
+      exact hout ((inAny_iff ivs a).mpr ⟨iv, hiv, h⟩)
+    obtain ⟨bL, hbL, hminL, hfirstL⟩ := argminFirst_spec ((ivs.map (·.1)).map (fun b => absR (a - b))) (by simpa using hne)
+    obtain ⟨bH, hbH, hminH, hfirstH⟩ := argminFirst_spec ((ivs.map (·.2)).map (fun b => absR (a - b))) (by simpa using hne)
+    unfold clipNear
+    simp only
+    generalize argminFirst ((ivs.map (·.1)).map (fun b => absR (a - b))) = iL at *
+    generalize argminFirst ((ivs.map (·.2)).map (fun b => absR (a - b))) = iH at *
+    simp only [List.getElem?_map] at hbL hbH hminL hminH hfirstL hfirstH ⊢
+    cases hC : ivs[iL]? with
+    | none => simp [hC] at hbL
+    | some C =>
+      cases hD : ivs[iH]? with
+      | none => simp [hD] at hbH
+      | some D =>
+        simp only [hC, hD, Option.map_some, Option.some.injEq, Option.getD_some] at hbL hbH ⊢
+        have hCm : C ∈ ivs := List.mem_of_getElem? hC
+        have hDm : D ∈ ivs := List.mem_of_getElem? hD
+        have hCw := hwf C hCm
+        have hDw := hwf D hDm
+        have inC : inAny ivs C.1 = true := (inAny_iff ivs _).mpr ⟨C, hCm, le_refl _, hCw⟩
+        have inD : inAny ivs D.2 = true := (inAny_iff ivs _).mpr ⟨D, hDm, hDw, le_refl _⟩
+        unfold clipAt
+        simp only
+        by_cases h1 : a ≤ C.1
+        · rw [if_pos h1]
+          split
+          · exact inD
+          · exact inC
+        · rw [if_neg h1]
+          by_cases h2 : D.2 ≤ a
+          · rw [if_pos h2]; exact inD
+          · exfalso
+            have h1' : C.1 < a := not_le.mp h1
+            have h2' : a < D.2 := not_le.mp h2
+            have hC2 : C.2 < a := by
+              by_contra h; exact hout' C hCm ⟨le_of_lt h1', not_lt.mp h⟩
+            have hD1 : a < D.1 := by
+              by_contra h; exact hout' D hDm ⟨not_lt.mp h, le_of_lt h2'⟩
+            -- distances
+            have e1 := hminL iH (absR (a - D.1)) (by simp [hD])
+            have e2 := hminH iL (absR (a - C.2)) (by simp [hC])
+            rw [← hbL] at e1; rw [← hbH] at e2
+            rw [absR_eq_abs, absR_eq_abs] at e1 e2
+            rw [abs_of_pos (by linarith), abs_of_neg (by linarith)] at e1
+            rw [abs_of_neg (by linarith), abs_of_pos (by linarith)] at e2
+            -- all four distances coincide
+            rcases Nat.lt_trichotomy iL iH with hlt | heq | hgt
+            · have := hfirstH iL (absR (a - C.2)) hlt (by simp [hC])
+              rw [← hbH, absR_eq_abs, absR_eq_abs, abs_of_neg (by linarith), abs_of_pos (by linarith)] at this
+              linarith
+            · subst heq
+              rw [hC] at hD; injection hD with hD; subst hD
+              linarith
+            · have := hfirstL iH (absR (a - D.1)) hgt (by simp [hD])
+              rw [← hbL, absR_eq_abs, absR_eq_abs, abs_of_pos (by linarith), abs_of_neg (by linarith)] at this
+              linarith
+
+/-- **in target** for the decorator, any number of intervals -/
+theorem bounded_in_target_multi (ivs : List (K × K)) (hwf : ∀ iv ∈ ivs, iv.1 ≤ iv.2) (hne : ivs ≠ [])
+    (idx : Option (List Int)) (x : List K) (k : Nat) (b : K)
+    (hk : selPos idx k = true) (hb : (bounded ivs idx x)[k]? = some b) : ∃ iv ∈ ivs, iv.1 ≤ b ∧ b ≤ iv.2 := by
+  unfold bounded at hb
+  rw [if_neg (by simpa using hne)] at hb
+  exact (inAny_iff ivs b).mp (maskMap_in_target (fun b => inAny ivs b = true) (boundedAt ivs)
+    (boundedAt_in_target ivs hwf hne) (selPos idx) x k b hk hb)
+
+/-- **idempotent**, any number of intervals -/
+theorem bounded_idem_multi (ivs : List (K × K)) (hwf : ∀ iv ∈ ivs, iv.1 ≤ iv.2)
+    (idx : Option (List Int)) (x : List K) : bounded ivs idx (bounded ivs idx x) = bounded ivs idx x := by
+  unfold bounded
+  split
+  · rfl
+  · rename_i hne
+    exact maskMap_idem _ (fun a => by
+      have := boundedAt_in_target ivs hwf (by simpa using hne) a
+      generalize boundedAt ivs a = b at this ⊢
+      simp [boundedAt, this]) _ x
+
+end multi
+
+section indexedsel
+variable {K : Type} [LinearOrder K]
+
+/-- **frame** for `sorting(index=...)` / `monotonic(index=...)`: entries whose position is not addressed by the index
+are untouched -/
+theorem indexed_frame (f : List K → List K) (is : List Int) (x y : List K)
+    (hy : indexed f (some is) x = .ok y) (k : Nat)
+    (hk : ∀ ks, wrapAll x.length is = some ks → k ∉ ks) : y[k]? = x[k]? := by
+  unfold indexed at hy
+  simp only at hy
+  split at hy
+  · injection hy with hy; rw [hy]
+  · split at hy
+    · injection hy with hy; rw [hy]
+    · split at hy
+      · cases hy
+      · split at hy
+        · cases hy
+        · rename_i ks hks
+          injection hy with hy; subst hy
+          apply scatter_not_mem
+          intro hmem
+          exact hk ks hks ((sortBy_perm true ks).subset hmem)
+
+end indexedsel
+
+/-- `sorting(index=is)`: unaddressed entries are untouched -/
+theorem sorting_frame {K : Type} [LinearOrder K] (asc : Bool) (is : List Int) (x y : List K)
+    (hy : sorting asc (some is) x = .ok y) (k : Nat)
+    (hk : ∀ ks, wrapAll x.length is = some ks → k ∉ ks) : y[k]? = x[k]? := indexed_frame _ is x y hy k hk
+
+/-- `monotonic(index=is)`: unaddressed entries are untouched -/
+theorem monotonic_frame {K : Type} [LinearOrder K] (asc : Bool) (is : List Int) (x y : List K)
+    (hy : monotonic asc (some is) x = .ok y) (k : Nat)
+    (hk : ∀ ks, wrapAll x.length is = some ks → k ∉ ks) : y[k]? = x[k]? := indexed_frame _ is x y hy k hk
+
+/-! ## non-vacuity: the hypotheses are met by concrete, non-trivial instances
+
+Listed theorems of the DESIGN that are NOT proved here (model + correspondence + monitor only):
+`impose_as` tied relation in general (only the three closed-term witnesses), `synchronized` tied/frame for
+arbitrary masks (only the ndarray witness), `impose_at` with a list target (scalar target proved), `masked`
+insertion, `with_spread` / `with_variance` / `with_std` targets, `discrete` NEAREST member (membership and
+fix-conform proved), round-half-EVEN tie rule (nearest-integer proved), in-target for the SELECTED subsequence of
+`sorting` / `monotonic` with an index (frame proved; whole-vector case proved), `bounded(clip=False)` and
+`bounded(nearest=False)` (random draws; correspondence with recorded draws only). -/
+
+/-- a floor on ℚ satisfies the `IsFloor` contract -/
+example : IsFloor (fun q : ℚ => ((Int.floor q : ℤ) : ℚ)) := fun a =>
+  ⟨Int.floor a, rfl, Int.floor_le a, Int.lt_floor_add_one a⟩
+
+/-- two intervals: `6` goes to the end `5` (nearest high), `11` to `10`, `-4` to `0`; `1` is left alone -/
+example : bounded [((0 : Int), 5), (7, 10)] none [1, -4, 11, 6] = [1, 0, 10, 5] := by decide
+
+example : sorting true none [(3 : Int), 1, 2] = .ok [1, 2, 3] := by decide
+example : monotonic false none [(3 : Int), 1, 2, 0] = .ok [3, 1, 1, 0] := by decide
+example : imposeAt [1, 3, 7, -1] (.inl (9 : Int)) [0, 0, 0, 0, 0] = .ok [0, 9, 0, 9, 9] := by decide
+example : partialMask [(0, (10 : Int)), (3, -1), (-1, 5)] [0, 1, 2, 3, 4] = [10, 1, 2, -1, 5] := by decide
+example : selMask 6 (some [0, 6]) 0 = false ∧ selMask 6 (some [0, -1]) 5 = true := by decide
+example : withMean List.sum Nat.cast (0 : ℚ) 0 5 [1, 2, 3, 4] = .ok [7/2, 9/2, 11/2, 13/2] := by
+  simp only [withMean, close, meanL, imposeMean, absR]
+  norm_num
+example : unique [(1 : Int), 2, 3, 4, 5] [1, 2, 1, 2] [5, 3, 4] = .ok [1, 2, 4, 3] := by decide
+
 end MysticVerif.C16
